@@ -85,9 +85,6 @@ fn exact_fit(edges: &[Edge], path: &[usize], amount: u64, sat_pow: u8) -> bool {
 	let mut prop_after = false;
 	for (k, ei) in path.iter().enumerate().rev() {
 		let e = &edges[*ei];
-		if prop_after && (e.saturation_limited_max(sat_pow).max(e.max) as u128).saturating_sub(amt) <= 2 {
-			return true;
-		}
 		if prop_after && (e.saturation_limited_max(sat_pow) as u128).saturating_sub(amt) <= 2 {
 			return true;
 		}
